@@ -48,9 +48,10 @@ type allocation struct {
 	refreshAllocTimer *PeriodicTimer        // Thread-safe
 	refreshPermsTimer *PeriodicTimer        // Thread-safe
 	readTimer         *time.Timer           // Thread-safe
-	readDeadline      atomic.Int64          // UnixNano of the read deadline, 0 if there is none
 	mutex             sync.RWMutex          // Thread-safe
 	log               logging.LeveledLogger // Read-only
+
+	readDeadline atomic.Pointer[time.Time] // The read deadline, nil if there is none
 }
 
 func (a *allocation) setNonceFromMsg(msg *stun.Message) {
